@@ -259,5 +259,46 @@ def run_tap():
     return res
 
 
+def run_srv():
+    """the static tie of the methods of Mailbox / AppNamespace: translate_srv.py regenerates GeneratedSrv.lean from the bodies of
+    Mailbox.open/_touch/_add_message and AppNamespace._add_mailbox/open_mailbox/claim_nameplate/release_nameplate;
+    Wormhole/Tie/Srv.lean proves each equal to the model's function of Core.lean, Tie/SrvStmts.lean ties the statement table"""
+    import translate_srv
+    spec = json.load(open(os.path.join(LEAN, "theorems.json")))["SRVTIE"]
+    res = {"status": "tied", "theorems": len(spec["theorems"]), "discharged": 0, "detail": ""}
+    with open(os.path.join(LEAN, ".lake", "verif-build.lock"), "w") as lk:
+        fcntl.flock(lk, fcntl.LOCK_EX)
+        import translate_sql
+        sinfo = translate_sql.main()
+        if "error" in sinfo:
+            res.update(status="untranslatable", detail=sinfo["error"])
+            return res
+        info = translate_srv.main()
+        if "error" in info:
+            res.update(status="untranslatable", detail=info["error"])
+            return res
+        res["methods"] = info["methods"]
+        res["dropped_statements"] = info["dropped"]
+        key = _cache_key(translate_srv.OUT, ["PySrv.lean", "Core.lean", "Store.lean", "Sys.lean", "Sql.lean", "GeneratedSql.lean",
+                                             "Tie/Srv.lean", "Tie/SrvStmts.lean", "Tie/SrvAll.lean", "Tie/Defs.lean",
+                                             "Tie/MailboxOpen.lean", "Tie/Messages.lean", "Tie/Claim.lean", "Tie/Release.lean"])
+        hit = _cache_get("srv", key)
+        if hit is not None:
+            hit["cached"] = True
+            return hit
+        ok, log = _lake(spec["modules"][0])
+        if not ok:
+            res["status"] = "broken"
+            res["detail"] = " | ".join([l for l in log.splitlines() if l.startswith("error")][:4])[-1000:]
+            _cache_put("srv", key, res)
+            return res
+        res["discharged"], bad = _audit(spec["modules"], spec["theorems"], "SRVTIE")
+        if bad:
+            res["status"] = "broken"
+            res["detail"] = "axioms: %s" % json.dumps(bad)[:600]
+        _cache_put("srv", key, res)
+    return res
+
+
 if __name__ == "__main__":
-    print(json.dumps({"sql": run(), "ws": run_ws(), "summ": run_summ(), "tap": run_tap()}, indent=1))
+    print(json.dumps({"sql": run(), "ws": run_ws(), "summ": run_summ(), "tap": run_tap(), "srv": run_srv()}, indent=1))
